@@ -21,6 +21,7 @@ def run(ctx, rep):
         reader(prog, rep, tag)
         addresses(prog, rep, spec, tag)
         strings(prog, rep, tag)
+        walk_exits(prog, rep, tag)
         byte_ranges(prog, rep, tag, "C12.range")
         structs(ctx, prog, rep, spec, tag)
 
@@ -284,3 +285,57 @@ def _narrowing_casts(b, op, depth=6):
         else:
             break
     return out
+
+
+def walk_exits(prog, rep, tag):
+    """The category walk may give up (`Ok(None)`: "this device has no such category") only where the image says so:
+    at the End marker, where a length overruns the address space (checked_add failed), or after a *count* of empty
+    categories reached the blank-EEPROM threshold.  Any other early exit - stopping at the first empty or unknown
+    category, say - hides every category behind it on a well-formed image (name, sync managers, FMMUs, PDOs all read
+    as absent), and no captured device has such a category."""
+    P = "C12.walk"
+    b = prog.async_body("SubDeviceEeprom::category")
+    pr = Prov(b)
+    nones = []
+    for bi, si, st in q.aggregates(b, "Result", "Ok"):
+        r = pr.of_operand(st["rv"]["a"][0]) if st["rv"]["a"] else frozenset()
+        if any(x[0] == "agg" and x[1] == "Option" and x[2] == "None" for x in r) and not any(x[0] == "agg" and x[1] == "Option" and x[2] == "Some" for x in r):
+            nones.append((bi, si))
+    conds_ = q.conds(b)
+    allowed = []
+    # (a) checked_add failed
+    for c in b.calls():
+        if (c.decl_s or "").endswith("::checked_add"):
+            for sw, okt, errt in q.ok_edges(b, c, ok="Some"):
+                if errt is not None:
+                    allowed.append(("overrun", q.edge_dominated(b, sw, errt)))
+    for cd in conds_:
+        # (b) the decoded category is the End marker
+        if cd.kind == "discr" and cd.enum_ty and "CategoryType" in cd.enum_ty:
+            vt = cd.variant_targets(prog)
+            if vt.get("End") is not None:
+                allowed.append(("end-marker", q.edge_dominated(b, cd.bb, vt["End"])))
+        # (c) a counter reached a constant threshold
+        if cd.kind == "cmp" and cd.op in ("Ge", "Gt", "Lt", "Le"):
+            l, r = pr.of_operand(cd.lhs), pr.of_operand(cd.rhs)
+            for cnt, k in ((l, cd.rhs), (r, cd.lhs)):
+                kv = q.const_int(k)
+                if kv is not None and kv >= 8 and has_root(cnt, "binop", "Add") and has_root(cnt, "const", 1) and not has_root(cnt, "call"):
+                    hit = cd.true_target() if (cd.op in ("Ge", "Gt")) == (cnt is l) else cd.false_target()
+                    if hit is not None:
+                        allowed.append(("empty-count>=%d" % kv, q.edge_dominated(b, cd.bb, hit)))
+    for cd in conds_:
+        if cd.kind == "call" and cd.call.is_("PartialEq::eq", "PartialEq::ne"):
+            both = pr.of_operand(cd.call.args[0]) | pr.of_operand(cd.call.args[1])
+            if any(x[0] == "const" and str(x[1]).endswith("CategoryType::End") for x in both) or any(x[0] == "agg" and x[1] == "CategoryType" and x[2] == "End" for x in both):
+                t = cd.true_target() if cd.call.is_("PartialEq::eq") else cd.false_target()
+                if t is not None:
+                    allowed.append(("end-marker", q.edge_dominated(b, cd.bb, t)))
+    kinds = []
+    bad = []
+    for bi, si in nones:
+        ks = sorted({k for k, dom in allowed if bi in dom})
+        kinds.append(ks)
+        if not ks:
+            bad.append(q.loc(b, bi, si))
+    rep.ob(P, "gives-up-only-where-the-image-ends" + tag, bool(nones) and not bad, "every Ok(None) of the category walk is reached only at the End marker, on an address overrun, or after the empty-category count reached its threshold: %s%s" % (kinds, (" UNAUDITED exits at %s" % bad) if bad else ""), loc=b.span)
